@@ -1,8 +1,250 @@
-(** C15 — polynomial solvers. Statements only. *)
-From Coq Require Import ZArith Reals List Bool.
-From KV Require Import Scalar RInst Solvers C15_proofs.
+(** C15 — Polynomial solvers return exactly the real roots; the bracketing solver returns a
+    point within epsilon of the sign change.  Statements only; every proof is [exact <lemma>].
+
+    All theorems are about model/Solvers.v (tied to kurbo/src/common.rs by the correspondence
+    check) at the real instance RS: the code run in exact arithmetic, where [/] is total
+    ([x/0 = 0]) and [fis_finite = true].  Hence every statement carries the guards the float
+    code relies on ([c2 <> 0], [c3 <> 0], ...), and the "leading coefficient vanishes" branches
+    (which test [is_finite] of a quotient) are stated generically over the scalar type, so that
+    they also hold for the binary64 instance.  Rounding is outside these theorems. *)
+From Coq Require Import ZArith Reals List Bool Floats Sorting.Sorted Lra Lia.
+From KV Require Import Scalar RInst F64 Solvers C15_proofs C15_f64.
 Import ListNotations.
 Local Open Scope R_scope.
 
+(** ** Quadratic *)
+
+(** c2 <> 0: exactly the real roots, strictly ascending (a double root appears once) *)
+Theorem C15_solve_quadratic_spec : forall c0 c1 c2 : R, c2 <> 0 ->
+  let l := solve_quadratic c0 c1 c2 in
+  (forall x, In x l <-> c0 + c1 * x + c2 * (x * x) = 0) /\ StronglySorted Rlt l.
+Proof. exact solve_quadratic_spec_main. Qed.
+
+(** by discriminant: none / the double root once / two in ascending order *)
+Theorem C15_solve_quadratic_by_discriminant : forall c0 c1 c2 : R, c2 <> 0 ->
+  let D := c1 * c1 - 4 * c2 * c0 in
+  (D < 0 -> solve_quadratic c0 c1 c2 = []) /\
+  (D = 0 -> solve_quadratic c0 c1 c2 = [- c1 / (2 * c2)]) /\
+  (0 < D -> exists x1 x2, solve_quadratic c0 c1 c2 = [x1; x2] /\ x1 < x2).
+Proof. exact solve_quadratic_disc. Qed.
+
 Theorem C15_solve_quadratic_length : forall c0 c1 c2 : R, (length (solve_quadratic c0 c1 c2) <= 2)%nat.
-Proof. exact quad_len. Qed.
+Proof. exact quad_len_any. Qed.
+
+(** c2 zero or negligible (the scaled coefficients overflow): the linear block is used.
+    For every scalar instance, in particular binary64. *)
+Theorem C15_solve_quadratic_linear_fallback : forall (T : Type) (S : Scalar T) (c0 c1 c2 : T),
+  (fis_finite (fmul c0 (fdiv f1 c2)) && fis_finite (fmul c1 (fdiv f1 c2)))%bool = false ->
+  solve_quadratic c0 c1 c2 = quad_linear c0 c1.
+Proof. exact solve_quadratic_linear_generic. Qed.
+
+(** the linear block: the root of c0 + c1 x for c1 <> 0; [0] when everything vanishes.
+    (c1 = 0, c0 <> 0: the float code returns no root because -c0/c1 is infinite; the real
+    instance cannot express that and the case is excluded by the guard.) *)
+Theorem C15_quad_linear_root : forall c0 c1 : R, c1 <> 0 ->
+  quad_linear c0 c1 = [- c0 / c1] /\ c0 + c1 * (- c0 / c1) = 0.
+Proof. exact quad_linear_real. Qed.
+
+Theorem C15_quad_linear_all_zero : quad_linear (T:=R) 0 0 = [0].
+Proof. exact quad_linear_zero. Qed.
+
+(** ** Cubic *)
+
+(** c3 <> 0: the returned values are exactly the real roots (soundness in all three branches:
+    Cardano one-root, double-root, trigonometric three-root; completeness in all three) *)
+Theorem C15_solve_cubic_exact : forall c0 c1 c2 c3 x : R, c3 <> 0 ->
+  (In x (solve_cubic c0 c1 c2 c3) <-> c0 + c1 * x + c2 * (x * x) + c3 * (x * x * x) = 0).
+Proof. exact solve_cubic_exact. Qed.
+
+Theorem C15_solve_cubic_roots : forall c0 c1 c2 c3 x : R, c3 <> 0 ->
+  In x (solve_cubic c0 c1 c2 c3) -> c0 + c1 * x + c2 * (x * x) + c3 * (x * x * x) = 0.
+Proof. exact solve_cubic_sound. Qed.
+
+(** positive discriminant (of the scaled, depressed cubic): three values, strictly descending *)
+Theorem C15_cubic_three_distinct : forall c0 c1 c2 : R,
+  let d0 := - c2 * c2 + c1 in
+  let d1 := - c1 * c2 + c0 in
+  let d2 := c2 * c0 - c1 * c1 in
+  let d := 4 * d0 * d2 - d1 * d1 in
+  0 < d -> exists x0 x1 x2, cubic_main c0 c1 c2 = [x0; x1; x2] /\ x2 < x1 < x0.
+Proof. exact cubic_main_three. Qed.
+
+Theorem C15_solve_cubic_length : forall c0 c1 c2 c3 : R, (length (solve_cubic c0 c1 c2 c3) <= 3)%nat.
+Proof. exact solve_cubic_len. Qed.
+
+(** c3 zero or negligible (a scaled coefficient overflows): delegates to the quadratic solver.
+    For every scalar instance, in particular binary64. *)
+Theorem C15_solve_cubic_delegates : forall (T : Type) (S : Scalar T) (c0 c1 c2 c3 : T),
+  (fis_finite (fmul c0 (fdiv f1 c3)) && fis_finite (fmul c1 (fmul (fdiv f1 f3) (fdiv f1 c3)))
+   && fis_finite (fmul c2 (fmul (fdiv f1 f3) (fdiv f1 c3))))%bool = false ->
+  solve_cubic c0 c1 c2 c3 = solve_quadratic c0 c1 c2.
+Proof. exact solve_cubic_delegates_generic. Qed.
+
+(** the repaired variant of the one-root branch (kept in the model for comparison, not in the
+    code) is the same real function as the code's formula *)
+Theorem C15_cubic_one_root_repaired_same : forall c0 c1 c2 : R,
+  let d0 := - c2 * c2 + c1 in
+  let d1 := - c1 * c2 + c0 in
+  let d2 := c2 * c0 - c1 * c1 in
+  4 * d0 * d2 - d1 * d1 < 0 ->
+  cubic_one_root_repaired c0 c1 c2 = cubic_one_root_pinned c0 c1 c2.
+Proof. exact cubic_one_root_repaired_eq. Qed.
+
+(** ** Quartic *)
+
+(** whatever factor_quartic_inner returns, solve_quartic_inner returns exactly the real roots
+    of the two quadratic factors, at most four values *)
+Theorem C15_quartic_from_factors : forall (a b c d : R) (rescale : bool),
+  match factor_quartic_inner a b c d rescale with
+  | Some ((a1, b1), (a2, b2)) =>
+      exists l, solve_quartic_inner a b c d rescale = Some l /\ (length l <= 4)%nat /\
+        forall x, In x l <-> (x * x + a1 * x + b1 = 0 \/ x * x + a2 * x + b2 = 0)
+  | None => solve_quartic_inner a b c d rescale = None
+  end.
+Proof. exact solve_quartic_inner_spec. Qed.
+
+(** c4 = 0 / c0 = 0 delegation (every scalar instance) *)
+Theorem C15_solve_quartic_c4_zero : forall (T : Type) (S : Scalar T) (c0 c1 c2 c3 c4 : T),
+  feqb c4 f0 = true -> solve_quartic c0 c1 c2 c3 c4 = solve_cubic c0 c1 c2 c3.
+Proof. exact solve_quartic_c4_zero_generic. Qed.
+
+Theorem C15_solve_quartic_c0_zero : forall (T : Type) (S : Scalar T) (c0 c1 c2 c3 c4 : T),
+  feqb c4 f0 = false -> feqb c0 f0 = true ->
+  solve_quartic c0 c1 c2 c3 c4 = solve_cubic c1 c2 c3 c4 ++ [f0].
+Proof. exact solve_quartic_c0_zero_generic. Qed.
+
+Theorem C15_solve_quartic_c0_zero_exact : forall c1 c2 c3 c4 x : R, c4 <> 0 ->
+  (In x (solve_quartic 0 c1 c2 c3 c4) <-> quartic_poly 0 c1 c2 c3 c4 x = 0).
+Proof. exact solve_quartic_c0_zero_exact. Qed.
+
+(** the general case is PARTIAL: relative to the named, unproved hypothesis [factoring_exact]
+    (whenever factor_quartic_inner returns two quadratics, their product is the quartic, in
+    exact arithmetic).  Under it: at most four values, every value is a root, and if one of the
+    three factoring attempts succeeds every real root is returned.  Missing for the full claim:
+    a proof of [factoring_exact] (Orellana-De Michele's LDL^T construction plus the Newton
+    polish) and of "all three attempts fail only if there is no real root". *)
+Theorem C15_solve_quartic_partial : forall c0 c1 c2 c3 c4 : R,
+  factoring_exact -> c4 <> 0 -> c0 <> 0 ->
+  let l := solve_quartic c0 c1 c2 c3 c4 in
+  (length l <= 4)%nat /\
+  (forall x, In x l -> quartic_poly c0 c1 c2 c3 c4 x = 0) /\
+  ((exists r, solve_quartic_inner (c3 / c4) (c2 / c4) (c1 / c4) (c0 / c4) false = Some r \/
+              solve_quartic_inner (c3 / c4 / sv_K_Q) (c2 / c4 / powerRZ sv_K_Q 2) (c1 / c4 / powerRZ sv_K_Q 3)
+                                  (c0 / c4 / powerRZ sv_K_Q 4) false = Some r \/
+              solve_quartic_inner (c3 / c4 / sv_K_Q) (c2 / c4 / powerRZ sv_K_Q 2) (c1 / c4 / powerRZ sv_K_Q 3)
+                                  (c0 / c4 / powerRZ sv_K_Q 4) true = Some r) ->
+   forall x, quartic_poly c0 c1 c2 c3 c4 x = 0 -> In x l).
+Proof. exact solve_quartic_general. Qed.
+
+(** ** ITP *)
+
+(** one step: the next evaluation point lies strictly inside the bracket, and both possible
+    new brackets have width at most the current scaled epsilon (so the invariant
+    [b - a <= 2 * scaled_epsilon] is preserved when scaled_epsilon is halved) *)
+Theorem C15_itp_bracket_step : forall a b k1 ya yb se : R,
+  a < b -> ya < 0 -> 0 < yb -> 0 <= k1 -> b - a <= 2 * se ->
+  let x := itp_point a b k1 ya yb se in
+  a < x < b /\ x - a <= se /\ b - x <= se.
+Proof. exact itp_point_bounds. Qed.
+
+(** termination within the iteration budget nmax = n0 + n1_2 and the post-condition: an exact
+    zero strictly inside the bracket, or the midpoint of a sign-change sub-bracket of width
+    <= 2 epsilon.  Guards: epsilon > 0, a < b, k1 >= 0, ya < 0 < yb with the signs of f,
+    nmax < 64 (else [1u64 << nmax] overflows). *)
+Theorem C15_solve_itp_spec : forall (fuel : nat) (f : R -> R) (a b eps k1 ya yb : R) (n0 : Z),
+  0 < eps -> a < b -> 0 <= k1 -> (0 <= n0)%Z ->
+  ya < 0 -> 0 < yb -> f a < 0 -> 0 < f b ->
+  let nmax := (n0 + itp_n1_2 a b eps)%Z in
+  (nmax < 64)%Z -> (Z.to_nat nmax <= fuel)%nat ->
+  exists x, solve_itp fuel f a b eps n0 k1 ya yb = Some x /\ itp_post f eps a b x.
+Proof. exact solve_itp_spec. Qed.
+
+(** monotone f: the result is a zero, or within epsilon of every zero *)
+Theorem C15_itp_monotone_within_epsilon : forall (f : R -> R) (eps a b x : R),
+  (forall u v, u <= v -> f u <= f v) -> itp_post f eps a b x ->
+  f x = 0 \/ forall z, f z = 0 -> Rabs (x - z) <= eps.
+Proof. exact itp_post_monotone. Qed.
+
+(** the budget is what the source says: (b - a) <= eps * 2^k gives n1_2 <= k *)
+Theorem C15_itp_budget : forall (a b eps : R) (k : nat), 0 < eps -> a < b ->
+  b - a <= eps * 2 ^ k -> (itp_n1_2 a b eps <= Z.of_nat k)%Z.
+Proof. exact itp_n1_2_upper. Qed.
+
+(** ** Non-vacuity: concrete instances, executed on the binary64 instance of the same model *)
+Local Open Scope float_scope.
+
+Example C15_ex_quadratic_two : solve_quadratic (T:=float) 2 (-3) 1 = [1; 2].
+Proof. vm_compute. reflexivity. Qed.
+Example C15_ex_quadratic_double : solve_quadratic (T:=float) 4 (-4) 1 = [2].
+Proof. vm_compute. reflexivity. Qed.
+Example C15_ex_quadratic_none : solve_quadratic (T:=float) 1 0 1 = [].
+Proof. vm_compute. reflexivity. Qed.
+Example C15_ex_quadratic_linear : solve_quadratic (T:=float) 3 (-2) 0 = [0x1.8p+0].
+Proof. vm_compute. reflexivity. Qed.
+Example C15_ex_quadratic_all_zero : solve_quadratic (T:=float) 0 0 0 = [0].
+Proof. vm_compute. reflexivity. Qed.
+Example C15_ex_cubic_counts :
+  length (solve_cubic (T:=float) (-6) 11 (-6) 1) = 3%nat /\      (* (x-1)(x-2)(x-3) *)
+  length (solve_cubic (T:=float) 2 (-3) 0 1) = 2%nat /\          (* (x-1)^2 (x+2): d = 0 *)
+  length (solve_cubic (T:=float) 1 1 1 1) = 1%nat /\             (* (x+1)(x^2+1) *)
+  solve_cubic (T:=float) 2 (-3) 1 0 = [1; 2].                     (* c3 = 0: the quadratic *)
+Proof. vm_compute. repeat split. Qed.
+Example C15_ex_cubic_double_root : solve_cubic (T:=float) 2 (-3) 0 1 = [1; -2].
+Proof. vm_compute. reflexivity. Qed.
+(* the factoring step does return factors (the premise of the partial theorem is inhabited) *)
+Example C15_ex_quartic_factors :
+  match factor_quartic_inner (T:=float) (-10) 35 (-50) 24 false with Some _ => true | None => false end = true /\
+  length (solve_quartic (T:=float) 24 (-50) 35 (-10) 1) = 4%nat.     (* (x-1)(x-2)(x-3)(x-4) *)
+Proof. vm_compute. split; reflexivity. Qed.
+(* ITP on f(x) = x - 1/3 over [0,1], epsilon = 1/8: three iterations suffice *)
+Example C15_ex_itp :
+  match solve_itp (T:=float) 3 (fun x => x - 0x1.5555555555555p-2) 0 1 0x1p-3 0 0x1.999999999999ap-3 (-0x1.5555555555555p-2) 0x1.5555555555556p-1
+  with Some x => PrimFloat.leb (abs (x - 0x1.5555555555555p-2)) 0x1p-3 | None => false end = true.
+Proof. vm_compute. reflexivity. Qed.
+
+(** ** A defect of the code (known finding C15-cubic-one-root-cancellation), on the binary64
+    instance of the model.  The one-root branch computes cbrt(r + sq) + cbrt(r - sq).  For
+    x^3 + 1e-5 x - 5 (scaled coefficients c0 = -5, c1 = 1e-5/3, c2 = 0) one argument cancels and
+    the returned value is the root of x^3 - 5: the residual is 1.7e-5, eleven orders of magnitude
+    above rounding.  The variant [cubic_one_root_repaired] (u = cbrt(r + copysign(sq, r)),
+    v = -d0/u; not in the code) has a residual below 1e-14 on the same input, and is the same
+    function over the reals (C15_cubic_one_root_repaired_same). *)
+Definition cubic_monic_F (c0 c1 c2 x : float) : float := x * x * x + 3 * c2 * (x * x) + 3 * c1 * x + c0.
+
+Theorem C15_cubic_one_root_pinned_refuted : exists c0 c1 c2 : float,
+  cubic_main c0 c1 c2 = [cubic_one_root_pinned c0 c1 c2] /\
+  PrimFloat.ltb 0x1p-17 (abs (cubic_monic_F c0 c1 c2 (cubic_one_root_pinned c0 c1 c2))) = true /\
+  PrimFloat.ltb (abs (cubic_monic_F c0 c1 c2 (cubic_one_root_repaired c0 c1 c2))) 0x1p-46 = true.
+Proof. exists (-5), (0x1.4f8b588e368f1p-17 * (1 / 3)), 0. vm_compute. repeat split. Qed.
+
+(** before repair commit f907a58 the shift of factor_quartic_inner was 0/0 = NaN for a = b = 0
+    (x^4 + c x + d), so every later quantity was NaN and solve_quartic returned no root, e.g. for
+    x^4 - 1; with the guard (now in the code and in the model) both roots are found *)
+Theorem C15_quartic_shift_pinned_refuted :
+  PrimFloat.is_nan (fq_shift_pinned (T:=float) 0 0) = true /\
+  solve_quartic (T:=float) (-1) 0 0 0 1 = [-1; 1].
+Proof. vm_compute. split; reflexivity. Qed.
+
+(** ** On binary64 itself: a zero leading coefficient gives exactly the lower-degree solver's
+    result, for every value (NaN and infinities included) of the other coefficients *)
+Theorem C15_F64_solve_quadratic_zero_leading : forall c0 c1 c2 : float,
+  PrimFloat.is_zero c2 = true -> solve_quadratic c0 c1 c2 = quad_linear c0 c1.
+Proof. exact solve_quadratic_zero_leading_F64. Qed.
+
+Theorem C15_F64_solve_cubic_zero_leading : forall c0 c1 c2 c3 : float,
+  PrimFloat.is_zero c3 = true -> solve_cubic c0 c1 c2 c3 = solve_quadratic c0 c1 c2.
+Proof. exact solve_cubic_zero_leading_F64. Qed.
+
+Theorem C15_F64_solve_quartic_zero_leading : forall c0 c1 c2 c3 c4 : float,
+  PrimFloat.is_zero c4 = true -> solve_quartic c0 c1 c2 c3 c4 = solve_cubic c0 c1 c2 c3.
+Proof. exact solve_quartic_zero_leading_F64. Qed.
+Local Close Scope float_scope.
+
+Example C15_ex_itp_hypotheses :
+  let f := fun x : R => x - 1 / 3 in
+  0 < 1 / 8 /\ 0 < 1 /\ f 0 < 0 /\ 0 < f 1 /\ (0 + itp_n1_2 0%R 1%R (1 / 8)%R < 64)%Z.
+Proof.
+  cbv zeta. repeat split; try lra.
+  assert (Hb : 1 - 0 <= 1 / 8 * 2 ^ 3) by (replace (2 ^ 3) with 8 by ring; lra).
+  pose proof (itp_n1_2_upper 0 1 (1 / 8) 3 ltac:(lra) ltac:(lra) Hb) as H. change (Z.of_nat 3) with 3%Z in H. lia.
+Qed.
